@@ -33,7 +33,7 @@ def sample_models(case, mir, schema, n, seed):
         b.value(case.recv_ty, case.recv)
     for c in case.calls:
         for (ty, t) in c.args:
-            b.value(ty, t)
+            b.value(ty.lstrip("&").strip(), t)
     for nme in getattr(case, "extra_syms", ()):
         h.real(nme)
     S = dict(h.syms)
@@ -109,6 +109,8 @@ def to_json(schema, h, ty, v):
     if name == "LinkIdx":
         return to_json(schema, h, "u32", v.fields[0])
     if name in schema.structs:
+        if not schema.structs[name]:
+            return None
         out = {}
         for f, fv in zip(schema.structs[name], v.fields):
             if f.skip or fv is UNINIT:
@@ -122,6 +124,26 @@ def to_json(schema, h, ty, v):
             return vn
         return {vn: to_json(schema, h, ptys[0], v.fields[0])}
     raise Unsupported("to_json " + ty)
+
+
+def plain(h, st, v):
+    """returned engine value -> plain JSON (numbers / lists); None if not representable"""
+    if v is None:
+        return None
+    v = h.eng.deref_all(st, v)
+    if isinstance(v, Enum) and v.ty in ("Result", "Option"):
+        if (v.ty == "Result" and v.variant == 1) or (v.ty == "Option" and v.variant == 0):
+            return None
+        return plain(h, st, v.fields[0])
+    if isinstance(v, Seq):
+        return [plain(h, st, x) for x in v.elems]
+    if isinstance(v, Struct) and v.ty == "()":
+        return [plain(h, st, x) for x in v.fields] if v.fields else None
+    if isinstance(v, bool):
+        return v
+    if isinstance(v, (int, float)):
+        return v
+    return None
 
 
 def diff_json(a, b, path="", out=None, rtol=1e-9, atol=1e-12):
@@ -168,10 +190,19 @@ def validate_case(case, mir, schema, native, n, seed):
         h = Harness(mir, case.name + ":tvf", case.prop, mode="float", loop_bound=200)
         b = FloatBuilder(h, schema, mv)
         try:
-            recv_val = b.value(case.recv_ty, case.recv)
-            call_args = [[b.value(ty, t) for (ty, t) in c.args] for c in case.calls]
+            recv_val = b.value(case.recv_ty, case.recv) if case.recv is not None else None
             st = h.new_state()
-            p = h.put(st, recv_val)
+            call_args = []
+            for c in case.calls:
+                row = []
+                for (ty, t) in c.args:
+                    if ty.startswith("&"):
+                        row.append(h.put(st, b.value(ty[1:].strip(), t)))
+                    else:
+                        row.append(b.value(ty, t))
+                call_args.append(row)
+            p = h.put(st, recv_val) if recv_val is not None else None
+            retv = None
             kind = "ok"
             step = 0
             for ci, c in enumerate(case.calls):
@@ -182,22 +213,24 @@ def validate_case(case, mir, schema, native, n, seed):
                         cur = h.eng.load_ptr(st, pp)
                         idx = 0 if isinstance(cur, Enum) else mir.struct_fields[cur.ty].index(seg)
                         pp = Ptr(pp.root, pp.path + (idx,))
-                outs = h.run(c.fn, st, [pp] + list(call_args[ci]))
+                outs = h.run(c.fn, st, ([pp] if pp is not None and not case.free_fn else []) + list(call_args[ci]))
                 if len(outs) != 1:
                     raise Unsupported(f"concrete run produced {len(outs)} outcomes")
                 o = outs[0]
                 st = o.st
                 kind = casesmod.outcome_kind(o)
+                retv = o.val if o.kind == "ret" else None
                 if kind != "ok":
                     break
-            post = to_json(schema, h, case.recv_ty, h.deref(st, p))
+            post = to_json(schema, h, case.recv_ty, h.deref(st, p)) if p is not None else None
+            retj = plain(h, st, retv)
         except (Unsupported, Exception) as e:  # noqa
             res["skipped"] += 1
             res.setdefault("skip_reasons", []).append(repr(e)[:200])
             continue
         b2 = Builder(h, schema)
-        req = {"recv_ty": case.recv_ty, "recv": b2.json(case.recv_ty, case.recv, mv),
-               "calls": [{"fn": c.fn, "recv_path": c.recv_path, "args": [b2.json(ty, t, mv) for (ty, t) in c.args]} for c in case.calls]}
+        req = {"recv_ty": case.recv_ty if case.recv is not None else "<free>", "recv": b2.json(case.recv_ty, case.recv, mv) if case.recv is not None else None,
+               "calls": [{"fn": c.fn, "recv_path": c.recv_path, "args": [b2.json(ty.lstrip("&").strip(), t, mv) for (ty, t) in c.args]} for c in case.calls]}
         resp = native.call(req)
         if resp.get("kind") == "unsupported":
             res["skipped"] += 1
@@ -209,11 +242,13 @@ def validate_case(case, mir, schema, native, n, seed):
         if resp["kind"] != kind:
             d.append(("outcome", kind, resp["kind"]))
         elif kind != "panic":
-            d = diff_json(post, resp.get("recv"))
+            d = diff_json(post, resp.get("recv")) if post is not None else []
+            if kind == "ok" and retj is not None and resp.get("ret") is not None:
+                d += diff_json(retj, resp.get("ret"), "ret")
         if d:
             res["disagreements"] += 1
             if res["first_disagreement"] is None:
-                res["first_disagreement"] = {"inputs": mv, "diff": d[:8], "interp_kind": kind, "native_kind": resp["kind"]}
+                res["first_disagreement"] = {"diff": d[:8], "interp_kind": kind, "native_kind": resp["kind"], "inputs": mv}
         else:
             res["agree"] += 1
             if res["sample_vector"] is None:
